@@ -14,7 +14,7 @@ pub fn def() -> CheckDef {
         meta: CheckMeta {
             id: "C12",
             level: "fault_enumeration",
-            rule: "files after n = 0..N commits (N = 6 quick / 16 thorough) of generated histories (page sizes 1024, 4096 and, in one shard of eight, 5000 from a 4-page file, i.e. grown to a length that is not a whole number of pages; two shards of eight open with map-populate on, one of them also with strict mode and from a 4-page file); target = newest or older header page; damage = every offset of the header page x {xor 0xFF, xor 0x01, set 0, one seeded value} (thorough: all 255 alternatives on every byte the format defines: offset 8 and 32-43, 48-103), zeroing the page, every word-aligned range of the first 128 bytes zeroed (and short ranges / ranges to the end set to 0xFF), seeded multi-byte overwrites inside and outside the record, and tails from every 8-byte boundary filled with zeros / 0xFF / seeded bytes / the page's previous contents (a partially written header). Damages that leave the bytes unchanged are skipped. Oracle: opening a copy through the public API succeeds (no panic) and a full dump equals the state recorded by the intact header (S_n if the older header was hit, S_{n-1} if the newest was) whenever a byte the format defines changed; if only undefined bytes changed (page-header id/count/overflow, padding, bytes past the record) either state is accepted. Non-trivial = damage that changes a defined byte of the NEWEST header of a file whose last commit changed the state. Distinct = (file, target, damage).",
+            rule: "files after n = 0..N commits (N = 6 quick / 16 thorough) of generated histories (page sizes 1024, 4096 and, in one shard of eight, 5000 from a 4-page file, i.e. grown to a length that is not a whole number of pages; a quarter of the shards add files in which a bucket of N page-sized values was just deleted (N sweeping so that the free list, written to a run taken from the end of the file, passes through exactly 123 and 251 ids), with a short list of damages; two shards of eight open with map-populate on, one of them also with strict mode and from a 4-page file); target = newest or older header page; damage = every offset of the header page x {xor 0xFF, xor 0x01, set 0, one seeded value} (thorough: all 255 alternatives on every byte the format defines: offset 8 and 32-43, 48-103), zeroing the page, every word-aligned range of the first 128 bytes zeroed (and short ranges / ranges to the end set to 0xFF), seeded multi-byte overwrites inside and outside the record, and tails from every 8-byte boundary filled with zeros / 0xFF / seeded bytes / the page's previous contents (a partially written header). Damages that leave the bytes unchanged are skipped. Oracle: opening a copy through the public API succeeds (no panic) and a full dump equals the state recorded by the intact header (S_n if the older header was hit, S_{n-1} if the newest was) whenever a byte the format defines changed; if only undefined bytes changed (page-header id/count/overflow, padding, bytes past the record) either state is accepted. Non-trivial = damage that changes a defined byte of the NEWEST header of a file whose last commit changed the state. Distinct = (file, target, damage).",
             assumptions: &[
                 "single-process open of a copy; the other header and all data pages are intact",
                 "a checksum collision under random multi-byte damage (2^-64) is ignored",
@@ -390,9 +390,92 @@ fn shard(ctx: &ShardCtx, known: &Known) -> ShardOut {
             }
         }
     }
+    // files whose free list exactly fills its page run (123 or 251 ids at page size 1024): the
+    // surviving header must still be accepted when the other one is damaged
+    if ctx.shard % 4 == 1 {
+        boundary_files(ctx, known, &mut out, &path);
+    }
     clear_current(ctx);
     out.exhaustive = Some(true);
     out
+}
+
+fn boundary_files(ctx: &ShardCtx, known: &Known, out: &mut ShardOut, path: &std::path::Path) {
+    // a bucket of N page-sized values is filled in one commit and deleted in the next: nothing is
+    // allocatable in that commit, so the new free-list run comes from the end of the file and
+    // holds exactly the N + few ids the deletion produced; N sweeps so that the count passes
+    // through the capacity of a one-page (123 ids) and a two-page (251 ids) run
+    let quarter = (ctx.shard / 4) as u16;
+    let ns: Vec<u16> = (0..12u16).map(|i| 100 + quarter * 12 + i).chain((0..12u16).map(|i| 226 + quarter * 12 + i)).collect();
+    let mut files: Vec<(HistoryCase, usize)> = Vec::new();
+    for n in ns {
+        let mut fill = vec![Op::GetOrCreate { b: 0, k: KeySel::Lit(b"v".to_vec()), kk: 2 }];
+        let mut at = 0u16;
+        while at < n {
+            let m = (n - at).min(250) as u8;
+            fill.push(Op::PutRun { b: 0, base: vec![b'p'], start: at, step: 1, n: m, klen: 0, vlen: 900 });
+            at += m as u16;
+        }
+        let txs = vec![
+            TxSpec { kind: TxKind::Commit, ops: fill },
+            TxSpec { kind: TxKind::Commit, ops: vec![Op::DeleteBucket { b: 0, k: KeySel::Lit(b"v".to_vec()), kk: 2 }] },
+            TxSpec { kind: TxKind::Commit, ops: vec![Op::GetOrCreate { b: 0, k: KeySel::Lit(b"w".to_vec()), kk: 2 }] },
+        ];
+        // a short-lived reader around every writer keeps the previous commit's freed pages pending,
+        // so the deleting commit finds nothing allocatable and takes its free-list run from the end of the file
+        files.push((HistoryCase { cfg: Cfg { pagesize: 1024, num_pages: 32, strict: false, populate: false }, fresh_handles: false, txs, dance: 1 }, 2));
+    }
+    let ds: Vec<Damage> = vec![
+        Damage::Xor { off: 8, mask: 0xff },
+        Damage::Xor { off: 40, mask: 1 },
+        Damage::Xor { off: 72, mask: 0x10 },
+        Damage::Xor { off: 88, mask: 1 },
+        Damage::Xor { off: 97, mask: 0xff },
+        Damage::ZeroPage,
+        Damage::Tail { off: 64, fill: 0 },
+        Damage::Tail { off: 96, fill: 3 },
+    ];
+    for (hist, n0) in files {
+        // the list written by transaction n0 is referenced by the newest header after n0 transactions and by the older one after the next commit
+        for n in [n0, n0 + 1] {
+            let p = match prepare(&hist, n, None, path) {
+                Ok(p) => p,
+                Err(_) => continue,
+            };
+            if install(&p, path).is_err() {
+                continue;
+            }
+            if std::env::var("JV_C12_DEBUG").is_ok() {
+                let rep = fsck::fsck(&p.bytes, hist.cfg.pagesize);
+                let (m, _) = fsck::choose_meta(&p.bytes, hist.cfg.pagesize);
+                let fl = m.as_ref().map(|m| m.freelist_page as usize).unwrap_or(0);
+                let ov = u64::from_le_bytes(p.bytes[fl * 1024 + 24..fl * 1024 + 32].try_into().unwrap());
+                let cnt = u64::from_le_bytes(p.bytes[fl * 1024 + 16..fl * 1024 + 24].try_into().unwrap());
+                eprintln!("C12-DEBUG n0 {} n {} free_entries {} count_field {} overflow {} newest_slot {}", n0, n, rep.stats.free_entries, cnt, ov, p.newest_slot);
+            }
+            for newest in [true, false] {
+                for d in &ds {
+                    let (r, any, def) = check_one(&p, &hist.cfg, newest, d, path);
+                    if !any {
+                        continue;
+                    }
+                    let case = C12Case { history: hist.clone(), n, newest, damage: d.clone(), legacy_after: None };
+                    if r.is_err() {
+                        note_current(ctx, "c12", &case);
+                    }
+                    let classes = vec!["free list exactly page-full in the surviving header's state (or next to it)".to_string(), format!("{} header", if newest { "newest" } else { "older" })];
+                    if r.is_err() {
+                        record_case(ctx, out, known, "c12", &case, CaseVerdict { failure: r.err(), nontrivial: def, classes });
+                    } else {
+                        out.evaluations += 1;
+                        for c in &classes {
+                            out.class(c);
+                        }
+                    }
+                }
+            }
+        }
+    }
 }
 
 /// Header formats per commit count: always the current format; on two of three (n, shard)
